@@ -40,7 +40,7 @@ FIXED_CALLERS = [
 
 class EngineC08(HistEngine):
     prop = "C08"
-    tiers = {"quick": dict(budget_s=75, max_runs=10**9, workers=16),
+    tiers = {"quick": dict(budget_s=55, max_runs=10**9, workers=16),
              "thorough": dict(budget_s=1500, max_runs=10**9, workers=16)}
     nstates = {"quick": 24, "thorough": 48}
 
